@@ -256,4 +256,45 @@ def nFinished (k : Nat) : List Ev → Nat
   | Ev.loadCancelled k' :: r => (if k' = k then 1 else 0) + nFinished k r
   | _ :: r => nFinished k r
 
+/-! ### several cache instances
+
+Every `TimeLimitedMaxSizeCache(load, lifetime_ns, num_slots, name)` object has its OWN `_futures`, `_cache`, `_expiry_time`,
+`_keys_by_expiry` and its own load function (gear's K8sCache holds a secret cache and a service-account cache, both keyed by
+`(name, namespace)`); the instances of a process share nothing but the clock.  The model of several instances is therefore the
+PRODUCT of independent single-cache models: a block addressed to instance `j` is `step` on component `j`. -/
+
+/-- the instances alive, each with its configuration, its state and (ghost) everything that happened in it so far -/
+abbrev Multi := List (Config × State × List Ev)
+
+def Multi.start (cfgs : List Config) : Multi := cfgs.map fun cfg => (cfg, init, [])
+
+/-- caller task `c` is suspended in a lookup of some instance -/
+def Multi.busy (m : Multi) (c : Nat) : Bool := m.any fun x => (awaited c x.2.1.inflight).isSome
+
+inductive MOp where
+  /-- an atomic block of instance `j` (`lookup`, `loadOk`, `loadFail` of ITS loader, `cancelCaller`) -/
+  | at (j : Nat) (op : Op)
+  /-- `time.monotonic_ns()` moves forward — for everybody -/
+  | advance (dt : Nat)
+  deriving DecidableEq, Repr
+
+def mstep (m : Multi) : MOp → Option (Multi × List Ev)
+  | .at _ (.advance _) => none                      -- the clock is not per instance
+  | .at j op =>
+    match m[j]? with
+    | none => none
+    | some (cfg, s, tr) =>
+      if (match op with | .lookup c _ => m.busy c | _ => false) then none
+      else match step cfg s op with
+        | none => none
+        | some (s', e) => some (m.set j (cfg, s', tr ++ e), e)
+  | .advance dt => some (m.map fun x => (x.1, { x.2.1 with now := x.2.1.now + dt }, x.2.2), [])
+
+def mrun : Multi → List MOp → Option Multi
+  | m, [] => some m
+  | m, op :: ops =>
+    match mstep m op with
+    | none => none
+    | some (m', _) => mrun m' ops
+
 end HailVerif.Cache
